@@ -552,6 +552,15 @@ class SymEval:
                 return Alg(self.atoms.get('exp', self.rat(e.args[0])))
             if f in ('float', 'int') and len(e.args) == 1:
                 return self.ev(e.args[0])
+            if f in ('np.ceil', 'numpy.ceil', 'math.ceil', 'np.floor', 'numpy.floor', 'math.floor', 'round', 'np.round', 'np.rint') and len(e.args) == 1:
+                # a value of its own: equal to the argument only when that is integral, which nothing here establishes
+                v = self.ev(e.args[0])
+                if v.is_rat() and v.rat().isconst():
+                    import math
+                    c = v.rat().constval()
+                    k = f.split('.')[-1]
+                    return const(math.ceil(c) if k == 'ceil' else math.floor(c) if k == 'floor' else round(c))
+                return Alg(self.atoms.get(f.split('.')[-1], self.rat(e.args[0])))
             if f in ('min', 'max') and len(e.args) == 2:
                 return Alg(self.atoms.get(f, (repr(self.ev(e.args[0])), repr(self.ev(e.args[1])))))
         raise AnalysisError('expression outside the scalar dialect: `%s`' % U(e)[:80])
